@@ -3,7 +3,7 @@ SPEC = dict(
     title='External interference with a fan is undone within one control cycle',
     props_file='Props/C05.v', props_mod='Props.C05',
     proof_files=['Proofs/Rescale.v', 'Proofs/Ctrl.v', 'Proofs/CtrlC05.v', 'Drv/CtrlC05.v'],
-    tie_vo=['Proofs/LeafTie.vo'],
+    tie_vo=['Proofs/LeafTie.vo', 'Proofs/ConstsTie_basic.vo', 'Proofs/ConstsTie_clamp.vo', 'Proofs/ConstsTie_stall.vo'],
     drivers=[dict(name='ctrl', drv_mod='Drv.CtrlC05', drv_file='Drv/CtrlC05.v', shard=100,
                   args={'quick': ['n=600'], 'thorough': ['n=12000']}, timeout={'quick': 900, 'thorough': 6000})],
     rule='seeded histories of 1..40 control cycles with interleaved RPM polls, external interference and device faults on real '
